@@ -14,11 +14,8 @@ Lemma mark_fields_mono mk zr : (forall t st v st' ok, mk t st = (v, st', ok) -> 
   forall l st dn vs st' d, mark_fields mk zr l st dn = (vs, st', d) -> st <= st'.
 Proof.
   intros Hm l. induction l as [|[nm ft] r IH]; intros st dn vs st' d H; cbn [mark_fields] in H; [mid H; subst; lia|].
-  destruct dn.
-  - destruct (mark_fields mk zr r st true) as [[vs' st3] d3] eqn:E3. mid H. subst. eapply IH. exact E3.
-  - destruct (mk ft st) as [[v1 st1] ok1] eqn:Em. apply Hm in Em. destruct ok1.
-    + destruct (mark_fields mk zr r st1 true) as [[vs' st3] d3] eqn:E3. mid H. subst. apply IH in E3. lia.
-    + destruct (mark_fields mk zr r st false) as [[vs' st3] d3] eqn:E3. mid H. subst. eapply IH. exact E3.
+  destruct (mk ft st) as [[v1 st1] ok1] eqn:Em. apply Hm in Em.
+  destruct (mark_fields mk zr r st1 (dn || ok1)) as [[vs' st3] d3] eqn:E3. mid H. subst. apply IH in E3. lia.
 Qed.
 Lemma mark_mono e fuel : forall t tok st v st' ok, mark e fuel t tok st = (v, st', ok) -> st <= st'.
 Proof.
